@@ -43,7 +43,8 @@ pub fn equil_problem(rng: &mut StdRng) -> Problem {
     s.insert("chordal_decomposition_enable".into(), json!(false));
     if rng.gen::<f64>() < 0.15 { s.insert("equilibrate_enable".into(), json!(false)); }
     s.insert("equilibrate_max_iter".into(), json!([0u32, 1, 3, 10, 10, 25][rng.gen_range(0..6)]));
-    let (mn, mx) = [(1e-4, 1e4), (1.0, 1.0), (1e-2, 1e2), (1e-1, 1e6), (1e-8, 1.0)][rng.gen_range(0..5)];
+    // (the last three windows do not contain 1: the bounds are the user's, whatever they are)
+    let (mn, mx) = [(1e-4, 1e4), (1.0, 1.0), (1e-2, 1e2), (1e-1, 1e6), (1e-8, 1.0), (1e-4, 0.5), (2.0, 1e4), (3.0, 3.0)][rng.gen_range(0..8)];
     s.insert("equilibrate_min_scaling".into(), json!(mn));
     s.insert("equilibrate_max_scaling".into(), json!(mx));
     p.settings = Value::Object(s);
